@@ -285,7 +285,8 @@ pub struct BinaryExpr {
 
 impl fmt::Display for BinaryExpr {
     fn fmt(&self, f: &mut fmt::Formatter) -> fmt::Result {
-        write!(f, "{}{}{}", self.left, self.operator, self.right)
+        // parenthesised: the text stands for one operand wherever it is pasted
+        write!(f, "({}{}{})", self.left, self.operator, self.right)
     }
 }
 
